@@ -148,6 +148,30 @@ int main(int argc, char** argv)
         else if(kl == 65 && ml == 1) vf::sample(cs + " -> " + want, 6);
       }
     }
+  // very long messages of zero bytes, fed in chunks to one hasher: the 64-bit length field and the byte counter (512 MiB is 2^32 bits)
+  {
+    const char* huge = vf::arg(argc, argv, "--huge", "");
+    std::string block(1 << 20, '\0');
+    for(const char* p = huge; *p;)
+    {
+      unsigned long long L = strtoull(p, 0, 10); while(*p && *p != ',') ++p; if(*p) ++p;
+      for(int chunking = 0; chunking < 2; ++chunking)
+      {
+        if(!sh.take()) continue;
+        std::string cs = vf::fmt("sha zeros len=%llu chunks of %s", L, chunking ? "1000003 bytes" : "1 MiB");
+        vf::crumb("sha256", sh.token(), cs);
+        vf::watchdog_arm(1800000);
+        size_t step = chunking ? 1000003 : block.size();
+        Sha256 h;
+        for(unsigned long long done = 0; done < L;) { size_t n = (size_t)std::min<unsigned long long>(step, L - done); h.update((const byte*)block.data(), n); done += n; }
+        byte d[32]; h.finalize(d);
+        std::string want = table[vf::fmt("Z:%llu", L)];
+        if(want.empty()) { fprintf(stderr, "no table entry for %s\n", cs.c_str()); _exit(3); }
+        vf::hit("huge"); vf::hit("distinct_nontrivial");
+        if(dig(d) != want) vf::violation("sha256.long-message", cs, "digest " + dig(d) + " != hashlib " + want);
+      }
+    }
+  }
   vf::watchdog_disarm();
   vf::emit_counters();
   return 0;
